@@ -13,14 +13,14 @@ SHARD = 25
 # space group -> crystal system (lattices are integer matrices compatible with the group)
 GROUPS = {
     'P-1': 'tri', 'P1': 'tri', 'P2_1/c': 'mono_b', 'C2/m': 'mono_b', 'P2/m': 'mono_b', 'Pnma': 'ortho', 'Cmcm': 'ortho', 'Fddd': 'ortho',
+    'P6_3/mmc': 'hex', 'P-3m1': 'hex', 'P3': 'hex', 'P6/mmm': 'hex', 'P6_3/m': 'hex', 'R-3m': 'hex',
     'P4/mmm': 'tetra', 'I4/mmm': 'tetra', 'P4_2/mnm': 'tetra', 'I4_1/amd': 'tetra', 'Pm-3m': 'cubic', 'Fm-3m': 'cubic', 'Ia-3d': 'cubic', 'F-43m': 'cubic',
 }
-RULE = ('cases = space group (16 groups over the triclinic, monoclinic, orthorhombic, tetragonal and cubic systems; operations exported exactly from pymatgen at run '
+RULE = ('cases = space group (22 groups over the triclinic, monoclinic, orthorhombic, tetragonal, hexagonal/trigonal (hexagonal axes, where the fractional rotation matrices are not orthogonal) and cubic systems; operations exported exactly from pymatgen at run '
         'time and checked in Coq to preserve the metric and to be inverse to the supplied inverse) x compatible integer lattice x site on the 1/24 grid '
         '(incl. next to cell faces so that symmetry images fall outside [0,1)) x positions on the 1/1024 grid placed around the symmetry images, across faces '
         'and at random x radius below half the smallest perpendicular width x integer supercells; cases with a distance within 1e-9 of the radius are '
-        'excluded and counted; non-trivial = at least one symmetry image outside [0,1) contributes a point. Hexagonal/trigonal groups are not generated '
-        '(their lattices have no integer matrix; see DESIGN)')
+        'excluded and counted; non-trivial = at least one symmetry image outside [0,1) contributes a point. Hexagonal cells are exact integer matrices in a rotated frame (a = (s,-s,0), b = (0,s,-s), c = (t,t,t))')
 TRUSTED = ['pymatgen symmetry tables are imported per case (metric preservation and inverses are checked in Coq); Lattice.get_all_distances replaced by the exact search']
 ASSUMPTIONS = ['radius <= half the smallest perpendicular width (hypothesis of the property)']
 
@@ -36,12 +36,16 @@ def _lattice(rng, system):
         elif system == 'ortho':
             a, b, c = rng.sample([4, 5, 6, 7, 9], 3)
             m = [[a, 0, 0], [0, b, 0], [0, 0, c]]
+        elif system == 'hex':
+            m = synth._int_lattice(rng, 'hex')
         elif system == 'mono_b':
             a, b, c = rng.sample([5, 6, 7, 8], 3)
             m = [[a, 0, 0], [0, b, 0], [rng.choice([-2, -1, 1, 2]), 0, c]]
         else:
             m = synth._int_lattice(rng, rng.choice(['tri', 'tri_full']))
         if synth.window_ok(m, 2):
+            if system in ('tri', 'mono_b') and rng.random() < 0.2:
+                m = [[-x for x in m[0]], m[1], m[2]] if system == 'tri' else m      # left-handed triclinic basis
             return m
 
 
